@@ -525,7 +525,7 @@ func (p *c08prop) Run(c *core.Case, st *core.Stats) []core.Violation {
 			second = append(second[:len(second)/2:len(second)/2], cc.Stream...)
 		}
 		nb := len(refRes.blocks)
-		for vi, stop := range []int{nb, -1, nb / 2, 1} {
+		for vi, stop := range []int{nb, -1, nb / 2, 1, -2} {
 			if stop > nb || (len(cc.Stream) > 100000 && vi >= 2) {
 				continue
 			}
@@ -536,7 +536,26 @@ func (p *c08prop) Run(c *core.Case, st *core.Stats) []core.Violation {
 			}
 			rdA := &wrapReader{data: cc.Stream, steps: steps, pFrom: -1, pTo: -1}
 			wp := lz.Wrap(rdA, ps.P)
-			if _, class, msg := driveWrap(wp, cc, rdA, rdA, st, stop); class != "" {
+			if stop == -2 {
+				// the first stream ends with a reader that fails for good: the
+				// caller gives up after the error was reported twice
+				rdA.pFrom, rdA.pTo = 1+int(c.Idx%5), 1<<30
+				nerr := 0
+				for i := 0; i < len(cc.Stream)+600 && nerr < 2; i++ {
+					var blk lz.Block
+					var perr error
+					if pv := call(func() { _, perr = wp.Parse(&blk, cc.Flags) }); pv != nil {
+						return viol("panic", "first stream with a failing reader", fmtPanic(pv))
+					}
+					if perr == io.EOF {
+						break
+					}
+					if perr != nil {
+						nerr++
+					}
+				}
+				st.Inc("wrapped_reset_after_reader_failure")
+			} else if _, class, msg := driveWrap(wp, cc, rdA, rdA, st, stop); class != "" {
 				return viol(class, fmt.Sprintf("first stream of a reused WrappedParser (stop after %d blocks)", stop), msg)
 			}
 			rdB := &wrapReader{data: second, steps: cc.Chunks[(vi+1)%len(cc.Chunks)], pFrom: -1, pTo: -1}
